@@ -68,6 +68,24 @@ MCNextOpts ==
        \/ AddOptsRefused(m, r, opts) \/ AddOptsCollision(m, r, opts) \/ AddOptsCollisionClearsPrimary(m, r, opts)
        \/ \E mat \in MatIn, d \in ID : AddOptsOk(m, r, mat, opts, d)
 
+(* ---- table of the handle-level API: every well-formed keyset of at most MaxEntries keys (every     *)
+(* status, ID requirement, kind of material per key, every annotation value) as a manager that has  *)
+(* just handed it out; then every accessor / Public() / constructor on that handle, and every        *)
+(* accessor on the handle derived from it.                                                            *)
+HEntrySet    == [id : ID, status : M!Status, primary : BOOLEAN, req : ID \cup {NoReq}]
+HandleValues == {es \in UNION {[1..n -> HEntrySet] : n \in 1..MaxEntries} : M!WellFormedKeyset(es)}
+HandleInit ==
+  /\ \E es \in HandleValues : \E mt \in [M!Ids(es) -> MatIn] : \E a \in Ann :
+        /\ mgr = [m \in Mgr |-> [entries |-> es, unavail |-> M!Ids(es)]]
+        /\ kx = [m \in Mgr |-> [mat |-> mt, ann |-> a]]
+        /\ handles = <<es>>
+        /\ hx = <<[mat |-> mt, ann |-> a]>>
+  /\ res = Ok("Init", AnyMgr, NoReq)
+  /\ io = Call(None, None)
+MCNextHandle == HandleOps(AnnListsMC)
+\* ACTION_CONSTRAINT: a second handle is derived from the first; nothing is derived from the second
+HandlePhase == Len(handles') <= 2 /\ (Len(handles) = 2 => Len(handles') = 2)
+
 (* ---- derived handles as leaves (ACTION_CONSTRAINT): a second handle comes only from Public() or a   *)
 (* constructor applied to the first, and once there are two, only handle-level calls follow.           *)
 GrowOps == {"HPublic", "Import", "ImportAnn"}
